@@ -165,8 +165,8 @@ def schema_string_check():
                ("n.x.y/{n.x.y}/n.x.z/{n.x.z}/n.w/{n.w}", "n.x.y/{n.x.y:int}/n.x.z/{n.x.z}/n.w/{n.w:float}", [{"n": {"x": {"y": 1, "z": "u"}, "w": 0.5}}, {"n": {"x": {"y": 2, "z": "u"}, "w": 0.5}}]),
                ("x/{f}", "x/{f:float}", [{"f": 0.5}, {"f": 12.0}, {"f": 3.25}]),
                ("k/{s}/v/{i}", "k/{s:str}/v/{i:int}", [{"s": "ab", "i": 1}, {"s": "ab", "i": 10}, {"s": "a_b", "i": 1}])]
-    for path, schema, universe in layouts:
-        for kind in ("dir", ".zip"):
+    for n_layout, (path, schema, universe) in enumerate(layouts):
+        for kind in ("dir", ".zip") + (("dir-relative",) if n_layout in (0, 3) else ()):
             with dir_scratch() as d:
                 os.makedirs(d + "/src")
                 os.makedirs(d + "/dst")
@@ -176,13 +176,22 @@ def schema_string_check():
                     j.doc["v"] = sp
                     open(j.fn("data.txt"), "w").write(json.dumps(sp))
                 before = tree(src)
-                target = d + "/export" + ("" if kind == "dir" else kind)
+                target = d + "/export" + ("" if kind.startswith("dir") else kind)
+                cwd = os.getcwd()
                 try:
                     src.export_to(target, path=path)
-                    dst.import_from(target, schema=schema)
+                    if kind == "dir-relative":
+                        # the origin spelled relative to the working directory: the same directory, the same result
+                        os.chdir(d)
+                        dst.import_from("export", schema=schema)
+                    else:
+                        dst.import_from(target, schema=schema)
                 except Exception as e:
+                    os.chdir(cwd)
                     out.append((f"{schema}:{kind}", f"export with path {path!r} then import with the schema {schema!r} ({kind}) raised {type(e).__name__}: {str(e)[:200]}"))
                     continue
+                finally:
+                    os.chdir(cwd)
                 got = tree(dst)
                 if got != before or stray(dst):
                     sp_got = sorted(json.dumps(j.statepoint(), sort_keys=True) for j in dst)
